@@ -65,6 +65,16 @@ class CallMixin(object):
                 v = self.eval(st, env, a.value)
                 if isinstance(v, TupleVal):
                     args.extend(v.items)
+                elif isinstance(v, Ref) and st.heap[v.id].kind == "list" and not getattr(st.heap[v.id], "havoc", False):
+                    for g_, x_ in st.heap[v.id].items:
+                        d_ = self.decide(st, g_)
+                        if d_ is False:
+                            continue
+                        if d_ is None:
+                            raise AnalysisError("E5.call", "star-argument with conditionally present elements", node, module)
+                        args.append(x_)
+                elif isinstance(v, Const) and isinstance(v.v, (tuple, list)):
+                    args.extend(wrap_const_(x_) for x_ in v.v)
                 else:
                     raise AnalysisError("E5.call", "star-argument of non-tuple", node, module)
             else:
@@ -72,6 +82,15 @@ class CallMixin(object):
         kwargs = {}
         for kw in node.keywords:
             if kw.arg is None:
+                v = self.eval(st, env, kw.value)
+                if isinstance(v, Const) and isinstance(v.v, dict) and all(isinstance(k_, str) for k_ in v.v):
+                    for k_, x_ in v.v.items():
+                        kwargs[k_] = wrap_const_(x_)
+                    continue
+                if isinstance(v, Ref) and st.heap[v.id].kind == "map" and all(isinstance(k_, str) and isinstance(p_, Const) and truth_const(p_.v) for k_, (p_, _) in st.heap[v.id].entries.items()):
+                    for k_ in st.heap[v.id].order:
+                        kwargs[k_] = st.heap[v.id].entries[k_][1]
+                    continue
                 raise AnalysisError("E5.call", "**kwargs call", node, module)
             kwargs[kw.arg] = self.eval(st, env, kw.value)
         return self.simp(st, self.call(st, fn, args, kwargs, node, module))
@@ -398,6 +417,7 @@ class CallMixin(object):
             items = self.iter_values(st, args[0], node, module)
             lo = ListObj(list(items))
             lo.one_shot = True
+            lo.iterator = True
             return self.alloc(st, lo)
         if name == "next" and args and isinstance(args[0], Ref) and st.heap[args[0].id].kind == "list":
             o = st.heap[args[0].id]
@@ -466,8 +486,22 @@ class CallMixin(object):
                     out.append((mk_and([g, self.truth(st, r, node)]), v))
             lo = ListObj(out)
             lo.one_shot = True  # an iterator on Python 3, a list on Python 2
+            lo.iterator = True
             self.event("lazy_iterator", node, module, st, what="%s() result" % name, list=None)
             return self.alloc(st, lo)
+        if name == "getattr" and len(args) in (2, 3) and isinstance(args[1], Const) and isinstance(args[1].v, str) and not kwargs:
+            if len(args) == 2:
+                return self.simp(st, self.getattr(st, args[0], args[1].v, node, module))
+            n_ev = len(self.events)
+            try:
+                return self.simp(st, self.getattr(st, args[0], args[1].v, node, module))
+            except Dead:
+                # the attribute is missing: getattr() with a default swallows the AttributeError
+                self.events[n_ev:] = [e_ for e_ in self.events[n_ev:] if not (e_.kind == "hazard" and e_.data.get("exc") == "AttributeError")]
+                return args[2]
+        if name == "hasattr" and len(args) == 2 and isinstance(args[1], Const) and isinstance(args[0], Ref) and st.heap[args[0].id].kind == "inst":
+            o_ = st.heap[args[0].id]
+            return Const(args[1].v in o_.attrs or args[1].v in o_.cls.methods or args[1].v in o_.cls.class_assigns)
         if name in ("input", "raw_input") and getattr(self, "input_hook", None) is not None:
             return self.input_hook(st, node, module)
         if name == "print":
@@ -1153,7 +1187,11 @@ class CallMixin(object):
         return self.alloc(st, ListObj(self.comprehension(st, env, node, module)))
 
     def e_GeneratorExp(self, st, env, node, module):
-        return self.alloc(st, ListObj(self.comprehension(st, env, node, module)))
+        lo = ListObj(self.comprehension(st, env, node, module))
+        # a generator object: consumed by whoever iterates it, and always true as a condition
+        lo.one_shot = True
+        lo.iterator = True
+        return self.alloc(st, lo)
 
     def e_SetComp(self, st, env, node, module):
         lo = ListObj(self.comprehension(st, env, node, module))
@@ -1297,7 +1335,7 @@ class StmtMixin(object):
     def exec_block(self, stmts, st, env):
         outs = []
         cur = st
-        for s in stmts:
+        for idx, s in enumerate(stmts):
             try:
                 res = self.exec_stmt(s, cur, env)
             except Dead:
@@ -1308,9 +1346,16 @@ class StmtMixin(object):
             if not normals:
                 cur = None
                 break
-            cur = normals[0].state
-            for o in normals[1:]:
-                cur, _ = self.merge_states(cur, o.state, None, None)
+            if len(normals) > 1:
+                groups = self.join_groups([o.state for o in normals])
+                if len(groups) > 1:
+                    # path splitting: the rest of the block once per state
+                    for g in groups:
+                        outs.extend(self.exec_block(stmts[idx + 1 :], g, env))
+                    return outs
+                cur = groups[0]
+            else:
+                cur = normals[0].state
         if cur is not None:
             outs.append(Outcome("normal", cur))
         return outs
@@ -1320,7 +1365,32 @@ class StmtMixin(object):
         m = getattr(self, "s_" + type(s).__name__, None)
         if m is None:
             raise AnalysisError("E5.stmt", "unsupported statement %s" % type(s).__name__, s, module)
-        return m(s, st, env, module)
+        if not getattr(self, "split_unjoinable", False) or isinstance(s, (ast.If, ast.For, ast.While, ast.Try, ast.With, ast.FunctionDef)):
+            return m(s, st, env, module)
+        from .interp import SplitOn
+
+        # path-splitting mode: a simple statement whose expression selects between values of
+        # different shape is interpreted once per case (what it recorded so far is rolled back)
+        before = st.copy()
+        marks = [len(self.events)] + [len(r) for r in getattr(self, "recorders", [])]
+        try:
+            return m(s, st, env, module)
+        except SplitOn as sp:
+            del self.events[marks[0] :]
+            for r, k in zip(getattr(self, "recorders", []), marks[1:]):
+                del r[k:]
+            outs = []
+            for cond in (sp.cond, mk_not(sp.cond)):
+                s2 = before.copy()
+                try:
+                    self.assume(s2, cond)
+                    s2.pc.append(cond)
+                    outs.extend(self.exec_stmt(s, s2, env))
+                except Dead:
+                    pass
+            if not outs:
+                raise Dead()
+            return outs
 
     def s_Expr(self, s, st, env, module):
         if isinstance(s.value, ast.Constant):
@@ -1464,11 +1534,47 @@ class StmtMixin(object):
         normals = [o for o in outs if o.status == "normal"]
         rest = [o for o in outs if o.status != "normal"]
         if len(normals) > 1:
-            cur = normals[0].state
-            for o in normals[1:]:
-                cur, _ = self.merge_states(cur, o.state, None, None)
-            normals = [Outcome("normal", cur)]
+            normals = [Outcome("normal", g) for g in self.join_groups([o.state for o in normals])]
         return rest + normals
+
+    def join_groups(self, states):
+        """Joins path states.  Normally into one; in path-splitting mode (`split_unjoinable`) two
+        states in which some live variable holds values of different shape (a tuple of one / of
+        two elements, None / a tuple) are kept apart and the code that follows is interpreted for
+        each of them."""
+        if not getattr(self, "split_unjoinable", False):
+            cur = states[0]
+            for x in states[1:]:
+                cur, _ = self.merge_states(cur, x, None, None)
+            return [cur]
+
+        def unjoinable_vars(stt):
+            out = set()
+            for i_, o_ in stt.heap.items():
+                if o_.kind == "env":
+                    for k_, v_ in o_.vars.items():
+                        if isinstance(v_, Opaque) and v_.tag.startswith("unjoinable:"):
+                            out.add((i_, k_))
+            return out
+
+        groups = []
+        for x in states:
+            placed = False
+            for gi, g in enumerate(groups):
+                try:
+                    m, _ = self.merge_states(g, x, None, None)
+                except AnalysisError:
+                    continue
+                if unjoinable_vars(m) - unjoinable_vars(g) - unjoinable_vars(x):
+                    continue
+                groups[gi] = m
+                placed = True
+                break
+            if not placed:
+                groups.append(x)
+        if len(groups) > 8:
+            raise AnalysisError("E5.join", "more than 8 path states that cannot be joined")
+        return groups
 
     def for_calliter(self, s, st, env, module, obj):
         """`for x in iter(f, sentinel): body else: orelse` is the retry loop
@@ -1920,7 +2026,10 @@ class StmtMixin(object):
                 self.current_func = st.heap[env.id].func if env.id in st.heap else saved_func
                 try:
                     try:
-                        outs = outs + self.exec_block(target.body, hst, env)
+                        hres = self.exec_block(target.body, hst, env)
+                        for ho in hres:
+                            ho.from_handler = True  # the else branch belongs to the body's normal exit only
+                        outs = outs + hres
                     except Dead:
                         pass
                 finally:
@@ -1930,8 +2039,9 @@ class StmtMixin(object):
                 self.events[:] = [e for e in self.events if id(e) not in ids]
         res = []
         for o in outs:
-            if o.status == "normal" and (s.orelse or s.finalbody):
-                sub = self.exec_block(list(s.orelse) + list(s.finalbody), o.state, env)
+            tail = ([] if getattr(o, "from_handler", False) else list(s.orelse)) + list(s.finalbody)
+            if o.status == "normal" and tail:
+                sub = self.exec_block(tail, o.state, env)
                 res.extend(sub)
             else:
                 res.append(o)
@@ -2109,9 +2219,14 @@ class StmtMixin(object):
             o = ListObj()
             o.kind = a.kind
             o.hash_ordered = a.hash_ordered or b.hash_ordered
-            for attr_ in ("one_shot", "havoc"):
+            for attr_ in ("one_shot", "havoc", "iterator"):
                 if getattr(a, attr_, False) or getattr(b, attr_, False):
                     setattr(o, attr_, True)
+            if getattr(a, "prefix_closed", False) and getattr(b, "prefix_closed", False) and len(a.items) == len(b.items):
+                # position k exists under its guard on either path
+                o.prefix_closed = True
+                o.items = [(self.mk_ite(M, c, ga, gb), self.mk_ite(M, c, xa, xb)) for (ga, xa), (gb, xb) in zip(a.items, b.items)]
+                return o
             n = 0
             while n < len(a.items) and n < len(b.items) and same(a.items[n][0], b.items[n][0]) and same(
                 a.items[n][1], b.items[n][1]
